@@ -142,7 +142,8 @@ def gen_case(rng, with_mailbox):
     else:
         rxe = None
     for _ in range(rng.randint(0, 5)):
-        t = rng.choice([10, 30, 40, 60, rng.randint(1, 0xfffe)])
+        # (type 0 is the NOP category of the SII: legal, any length)
+        t = rng.choice([10, 30, 40, 60, 0, rng.randint(0, 0xfffe)])
         if t in (41, 50, 51) or t in types:
             continue
         types.add(t)
@@ -287,6 +288,8 @@ def check_case(case, res, prior=None):
     res.case(case, nontrivial=ncat >= 2 or nent >= 1)
     if case.get("long_busy"):
         res.count("cases_with_a_long_busy_access")
+    if any(t == 0 for t, _ in case["cats"]):
+        res.count("cases_with_a_category_of_type_0")
     if any(t >= 0x8000 for t, _ in case["cats"]):
         res.count("cases_with_a_category_type_above_0x7fff")
     res.count("eeprom_accesses", sum(1 for e in t.events
